@@ -332,6 +332,7 @@ pub fn record(
                 "run_seed": rc.seed,
                 "faults": plan.describe(),
                 "result": format!("{:?}", out.result),
+                "outcomes": out.outcomes.iter().map(|o| format!("{o:?}").chars().take(220).collect::<String>()).collect::<Vec<_>>(),
                 "stall": out.stall.as_ref().map(|s| format!("{}: {}", s.class, s.detail)),
                 "trace_tail": trace_tail(out, 400),
             }),
